@@ -44,6 +44,7 @@ def run(chk):
     chk.call(r3_alignment, chk)
     chk.call(r4_views, chk)
     chk.call(r5_pure_helpers, chk)
+    chk.call(r6_antiparallel_branch, chk)
 
 
 def _whole_array_update(f, param):
@@ -322,6 +323,40 @@ def _dihedral_convention(chk):
     if txt in want:
         return 1
     raise AnalysisError(f"dihedral: the returned expression `{txt[:160]}` is not the atan2 form this rule knows the sign convention of - unknown idiom")
+
+
+def r6_antiparallel_branch(chk):
+    """rotation_matrix_from_vectors, nearly opposite vectors: the half turn is composed of two proper rotations through an
+    intermediate direction (two calls of the function itself).  A closed form I - 2 n n^T is a *reflection* (determinant -1):
+    it maps v1 to -v1 but mirrors everything else, so a chiral fragment joined along antiparallel directions is inverted.
+    Structural part only: which of the two shapes the branch returns; whether a product of rotations is numerically orthogonal
+    is not decided here."""
+    from ..canon import Env, path_conditions
+
+    prog = chk.prog
+    f = prog.func("molli.math.rotation:rotation_matrix_from_vectors")
+    chk.analysed(f)
+    env = Env(f.node)
+    key = f"{f.key}:antiparallel-branch-is-a-rotation"
+    rets = [r for r in walk_no_nested(f.node) if isinstance(r, ast.Return) and r.value is not None]
+    anti = [r for r in rets if any("tol" in names_in(c) and isinstance(c, ast.Compare) and isinstance(c.ops[0], (ast.LtE, ast.Lt)) for c in path_conditions(f.node, r))]
+    if not anti:
+        raise AnalysisError("rotation_matrix_from_vectors: the branch for nearly opposite vectors was not found - unknown idiom")
+    for r in anti:
+        e = env.expand(r.value, at=r)
+        txt = norm(e)
+        house = isinstance(e, ast.BinOp) and isinstance(e.op, ast.Sub) and "eye(3)" in norm(e.left) and "outer(" in norm(e.right) and any(
+            isinstance(n, ast.Constant) and n.value in (2, 2.0) for n in ast.walk(e.right))
+        neg_diag = "diag(" in txt and txt.count("-1") >= 1 and "@" not in txt and "rotation_matrix_from" not in txt
+        comp = isinstance(e, ast.BinOp) and isinstance(e.op, ast.MatMult) and all(
+            isinstance(x, ast.Call) and call_name(x) in ("rotation_matrix_from_vectors", "rotation_matrix_from_axis") for x in (e.left, e.right))
+        if house:
+            chk.fail("C11.R6", key, f.where(r), f"the branch returns `{short(e, 60)}` = I - 2 n n^T: a reflection, not a rotation (determinant -1) - the moved fragment is mirrored")
+        elif comp:
+            chk.ok("C11.R6", key, f.where(r), f"composed of two rotations: {short(e, 70)}")
+        else:
+            chk.note(f"C11.R6: antiparallel branch returns `{short(e, 70)}` - neither the two-rotation composition nor a recognised reflection; not decided (numerical)")
+            chk.ok("C11.R6", key, f.where(r), "shape not classified (numerical clause, section 6)", trivial=True)
 
 
 def r3_alignment(chk):
